@@ -102,3 +102,16 @@ PROPS["C40"] = dict(
     outside="Key<T>::new / KeyBytes::new (SHA-256 preimage hashing); bucket ranges for the other indices",
     stubs=[TRACING], assumptions=[NOSHA], hooks=[KADHOOK],
 )
+
+PROPS["C38"] = dict(
+    group="kad", files=["c38.rs"],
+    explanation=(
+        "ClosestBucketsIter (bucket visiting order) for ALL 2^256 target distances: produces every bucket index "
+        "0..=255 exactly once, in exactly the order 'set bits of d high->low, then clear bits low->high'; a second "
+        "harness machine-checks that this bit order IS the order of XOR distance to the target for all keys of "
+        "consecutive buckets. End to end: KBucketsTable::closest_keys on a small table returns every stored key "
+        "exactly once in non-decreasing XOR distance to the target."),
+    bounds="bucket order: all 256-bit distances, full 256-step iteration (unwind 258); end-to-end: <=3 stored keys, bucket size 2-3, symbolic keys within 2-3 buckets, symbolic target",
+    outside="tables with more than 3 entries; pending entries applied during iteration (covered under C37); closest() projection (same iterator, different map)",
+    stubs=[TRACING, WEBTIME], assumptions=[NOSHA, FORGET], hooks=[KADHOOK],
+)
